@@ -63,7 +63,7 @@ def report():
     os.remove(txt)
     files = {}
     for (f, l0, c0, l1, c1), (st, cnt) in blocks.items():
-        if "export_verif" in f or f.endswith("_test.go"):
+        if "export_verif" in f or f.endswith("_test.go") or f.startswith("verifharness"):
             continue
         files.setdefault(f, []).append((l0, l1, st, cnt))
     res = {"files": {}, "total": {}}
